@@ -1241,14 +1241,17 @@ class Trimesh(Geometry3D):
             else:
                 inverse = None
 
+        # get the normals from cache before dumping: assigning
+        # the re-indexed faces below changes the hash of our data
+        # so asking the cache afterwards returns nothing
+        cached_normals = self._cache["vertex_normals"]
+
         # re-index faces from inverse
         if inverse is not None and util.is_shape(self.faces, (-1, 3)):
             self.faces = inverse[self.faces.reshape(-1)].reshape((-1, 3))
 
         # update the visual object with our mask
         self.visual.update_vertices(mask)
-        # get the normals from cache before dumping
-        cached_normals = self._cache["vertex_normals"]
 
         # apply to face_attributes
         count = len(self.vertices)
